@@ -13,14 +13,17 @@ import (
 // 工作器
 // jobs: 启动参数
 // source: 随机源
+// lock: 读取随机源的互斥锁，保证每组样本是随机源上连续的 n 字节
 // n: 读取字节数
 // round: 检测方式
 // counter: 结果集统计
 // errs: 各组读取随机源时发生的错误，下标为组序号
-func worker(jobs chan int, source io.Reader, n int, round func([]byte) []*randomness.TestResult, counter []int32, distributions [][]float64, errs []error, wait *sync.WaitGroup) {
+func worker(jobs chan int, source io.Reader, lock *sync.Mutex, n int, round func([]byte) []*randomness.TestResult, counter []int32, distributions [][]float64, errs []error, wait *sync.WaitGroup) {
 	buf := make([]byte, n, n*2)
 	for i := range jobs {
-		_, err := source.Read(buf)
+		lock.Lock()
+		_, err := io.ReadFull(source, buf)
+		lock.Unlock()
 		if err != nil {
 			errs[i] = err
 			wait.Done()
@@ -41,9 +44,10 @@ func worker(jobs chan int, source io.Reader, n int, round func([]byte) []*random
 // return 控制命令管道, 结束型号器
 func bootWorker(source io.Reader, n int, round func([]byte) []*randomness.TestResult, counter []int32, distributions [][]float64, errs []error) (chan int, *sync.WaitGroup) {
 	var wait sync.WaitGroup
+	var lock sync.Mutex
 	jobs := make(chan int)
 	for i := 0; i < runtime.NumCPU(); i++ {
-		go worker(jobs, source, n, round, counter, distributions, errs, &wait)
+		go worker(jobs, source, &lock, n, round, counter, distributions, errs, &wait)
 	}
 	return jobs, &wait
 }
